@@ -8,7 +8,7 @@ import re
 import struct
 from framework import REPO, ROOT
 
-TIE = ["Nsq.Tie.Proto", "Nsq.Tie.ProtoBase10", "Nsq.Tie.ProtoFunc", "Nsq.Tie.ProtoIdentify"]
+TIE = ["Nsq.Tie.Proto", "Nsq.Tie.ProtoBase10", "Nsq.Tie.ProtoFunc", "Nsq.Tie.ProtoIdentify", "Nsq.Tie.NamesFn"]
 PROPS = ["Nsq.Props.C09", "Nsq.Props.C09Identify"]
 TIE_AUDIT = ["Nsq.Tie.ProtoAudit"]          # audit round 7 (C09 only; props/C10.py uses TIE / HARNESS above)
 PROPS_AUDIT = ["Nsq.Props.C09Audit", "Nsq.Props.C09Batch"]
@@ -717,6 +717,7 @@ def run(ctx):
                 "big-integer check of DPUB/RDY numbers; a concurrent well-behaved producer/consumer pair")
     gen_ok, _ = ctx.gen("e3_proto")
     ctx.gen("e1_codec")   # the translated ByteToBase10 (kind func) for Nsq.Tie.ProtoBase10
+    ctx.gen("e1_names")   # the translated isValidName / IsValidTopicName / IsValidChannelName (kind strfunc) for Nsq.Tie.NamesFn
     ctx.gen("e3_protofunc")   # the four clientV2 setters translated (kind pfunc) for Nsq.Tie.ProtoFunc
     ctx.gen("e3_audit09")     # PutMessages / AddClient / CheckAuth / AUTH tail / NewTicker / New option checks
     ok, log = ctx.lean_build(TIE + TIE_AUDIT + PROPS + PROPS_AUDIT)
